@@ -6,10 +6,23 @@ Text protocol for the heap model.
   request:  hp copy <cell>* ; <root hv>
   reply:    ok <canonical graph of the copy> fresh=<0|1> frozen=<0|1>   |   fuel
 
+  zeros ::= (z <type tag> <hv>)*          zero values of the opaque leaf types (Model/HeapOverlay.lean)
+  ty    ::= the type grammar of Model/OverlayIO.lean
+  request:  hp overlay <zeros> T <base struct ty> T <overlay struct ty> H <cell>* ; <base cell> <overlay root hv>
+            (dials.VerifOverlay: the overlay root is `p<c>` = the addressable struct in cell c, or a struct value;
+             it is deep-copied with the copier model, then overlaid in place onto the struct in the base cell)
+  request:  hp compose <zeros> T <base struct ty> H <cell>* ; <defaults hv> (L T <overlay struct ty> <root hv>)*
+            (compose: defaults copy, then every layer copied and overlaid)
+  reply:    <ok|err|panic|stuck:…> <canonical graph of the result, slices with identity> | mod <a>=<cell> ; … | fresh=<0|1>
+            mod = the cells of the request whose contents changed (new contents, shallow; addresses allocated
+            during the run print as *); fresh = everything the result newly reaches was allocated during the run
+
 The canonical graph numbers cells in depth-first first-visit order, so two graphs are isomorphic
 (same values, same sharing, same cycles) iff their renderings are equal.
 -/
 import DialsModel.Model.Heap
+import DialsModel.Model.HeapOverlay
+import DialsModel.Model.OverlayIO
 
 namespace Dials.Heap
 
@@ -87,6 +100,7 @@ def parseCells : Nat → List String → Option (List Cell × List String)
 structure RS where
   seen : List (Nat × Nat)
   out : List String
+  sid : Bool := false      -- number slices' backing arrays too (identity of slices is rendered)
 
 def RS.emit (r : RS) (s : String) : RS := { r with out := s :: r.out }
 
@@ -116,6 +130,16 @@ def renderV : Nat → Heap → RS → HV → RS
   | f + 1, h, r, .sl a len =>
     -- slices have no identity of their own in the rendering (the copier gives every slice value a
     -- fresh backing array); the whole capacity is shown
+    if r.sid then
+      match lookup r.seen a with
+      | some k => r.emit s!"l#{k}:{len}"
+      | none =>
+        let k := r.seen.length
+        let r := { r with seen := (a, k) :: r.seen }.emit s!"l#{k}:{len}=("
+        match h[a]? with
+        | some (.arr es) => (renderList f h r es).emit ")"
+        | _ => r.emit "?"
+    else
     match h[a]? with
     | some (.arr es) => (renderList f h (r.emit s!"l:{len}=(") es).emit ")"
     | _ => r.emit "l?"
@@ -182,6 +206,65 @@ def cellStr (h : Heap) (c : Cell) : String :=
   | .mapc es => "M" ++ toString es.length
   | .arr es => "A" ++ toString es.length
 
+/-- canonical graph in which slices have identity too (their backing arrays are numbered) -/
+def canonS (h : Heap) (v : HV) : String :=
+  let r := renderV 100000 h { seen := [], out := [], sid := true } v
+  String.intercalate " " r.out.reverse
+
+mutual
+/-- shallow text of a value in the request grammar; addresses `≥ n` (allocated during the run) print as `*` -/
+def showHV (n : Nat) : HV → List String
+  | .sc k => [s!"s{k}"]
+  | .nil => ["n"]
+  | .ptr a => [if a < n then s!"p{a}" else "p*"]
+  | .mp a => [if a < n then s!"m{a}" else "m*"]
+  | .sl a len => [if a < n then s!"l{a}:{len}" else s!"l*:{len}"]
+  | .st fs => "{" :: (showHFs n true fs ++ ["}"])
+  | .ar es => "[" :: (showHFs n false es ++ ["]"])
+  | .ifc d => "i" :: showHV n d
+def showHFs (n : Nat) (flags : Bool) : HFs → List String
+  | .nil => []
+  | .cons ex v rest => (if flags then [if ex then "e" else "u"] else []) ++ (showHV n v ++ showHFs n flags rest)
+end
+
+def showCell (n : Nat) : Option Cell → String
+  | some (.val v) => "V " ++ String.intercalate " " (showHV n v)
+  | some (.mapc es) => "M ( " ++ String.intercalate " " (es.flatMap fun p => showHV n p.1 ++ showHV n p.2) ++ " )"
+  | some (.arr es) => "A ( " ++ String.intercalate " " (es.flatMap (showHV n)) ++ " )"
+  | none => "?"
+
+/-- the cells of the request heap `h0` whose contents differ in `h'` -/
+def modified (h0 h' : Heap) : List String :=
+  (List.range h0.length).filterMap fun a =>
+    let after := showCell h0.length h'[a]?
+    if after == showCell h0.length h0[a]? then none else some s!"{a}={after}"
+
+/-- reply of the overlay / compose ops; `before` = what the base reached before the run -/
+def report (h0 h' : Heap) (st : St) (r : HV) (before : List Nat) : String :=
+  let fresh := (reachE 100000 h' [] r).all fun a => before.contains a || h0.length ≤ a
+  s!"{st.tag} {canonS h' r} | mod {String.intercalate " ; " (modified h0 h')} | fresh={if fresh then 1 else 0}"
+
+def parseZeros : Nat → List String → Option (Zeros × List String)
+  | 0, _ => none
+  | fuel + 1, "z" :: n :: rest =>
+    match n.toNat?, parseHV (rest.length + 1) rest with
+    | some n, some (v, r) => (parseZeros fuel r).map fun (z, r') => ((n, v) :: z, r')
+    | _, _ => none
+  | _ + 1, toks => some ([], toks)
+
+/-- (L T <struct ty> <root hv>)* -/
+def parseLayersH : Nat → List String → Option (List (Overlay.Fields × HV))
+  | 0, _ => none
+  | _ + 1, [] => some []
+  | fuel + 1, "L" :: "T" :: rest =>
+    match Overlay.parseTy (rest.length + 1) rest with
+    | some (.struct ofs, r) =>
+      match parseHV (r.length + 1) r with
+      | some (v, r') => (parseLayersH fuel r').map fun vs => (ofs, v) :: vs
+      | none => none
+    | _ => none
+  | _ + 1, _ => none
+
 def handleHp : List String → String
   | "copy" :: toks =>
     match parseCells (toks.length + 1) toks with
@@ -200,6 +283,44 @@ def handleHp : List String → String
           s!"ok {txt} fresh={if fresh then 1 else 0} frozen={if before == after then 1 else 0}"
       | _ => "bad-op"
     | none => "bad-op"
+  | "overlay" :: toks =>
+    match parseZeros (toks.length + 1) toks with
+    | some (z, "T" :: r1) =>
+      match Overlay.parseTy (r1.length + 1) r1 with
+      | some (.struct bfs, "T" :: r2) =>
+        match Overlay.parseTy (r2.length + 1) r2 with
+        | some (.struct ofs, "H" :: r3) =>
+          match parseCells (r3.length + 1) r3 with
+          | some (cells, bt :: r4) =>
+            match bt.toNat?, parseHV (r4.length + 1) r4 with
+            | some b, some (root, []) =>
+              match verifOverlayH z (200 + 40 * toks.length) bfs ofs cells b root with
+              | none => "fuel"
+              | some (h', st) => report cells h' st (.ptr b) (reachE 100000 cells [] (.ptr b))
+            | _, _ => "bad-op"
+          | _ => "bad-op"
+        | _ => "bad-op"
+      | _ => "bad-op"
+    | _ => "bad-op"
+  | "compose" :: toks =>
+    match parseZeros (toks.length + 1) toks with
+    | some (z, "T" :: r1) =>
+      match Overlay.parseTy (r1.length + 1) r1 with
+      | some (.struct bfs, "H" :: r2) =>
+        match parseCells (r2.length + 1) r2 with
+        | some (cells, r3) =>
+          match parseHV (r3.length + 1) r3 with
+          | some (d, r4) =>
+            match parseLayersH (r4.length + 1) r4 with
+            | some vs =>
+              match composeR z (200 + 40 * toks.length) bfs cells d vs with
+              | none => "fuel"
+              | some (h', st, r) => report cells h' st r []
+            | none => "bad-op"
+          | none => "bad-op"
+        | none => "bad-op"
+      | _ => "bad-op"
+    | _ => "bad-op"
   | _ => "bad-op"
 
 end Dials.Heap
